@@ -88,7 +88,7 @@ def run(job):
             for name, line in state_lines(v).items():
                 for ext in ("json", "pickle"):
                     for pat in ("only", "after-tick", "after-two-ticks", "tick-after"):
-                        cfg = {"version": v, "flavour": fl, "ext": ext}
+                        cfg = {"version": v, "flavour": fl, "ext": ext, "callback": pat != "after-tick" or ext == "json"}
                         if pat == "only":
                             steps = prefix + [["in", line], ["stop"]]
                         elif pat == "after-tick":
@@ -106,7 +106,7 @@ def run(job):
             return res
         rng = core.rng_for(ID, job["seed"], job["i"])
         for h in range(job["n"]):
-            cfg = {"version": VERSIONS[h % 5], "flavour": ["sync", "async"][(h // 5) % 2], "ext": ["json", "pickle"][(h // 10) % 2]}
+            cfg = {"version": VERSIONS[h % 5], "flavour": ["sync", "async"][(h // 5) % 2], "ext": ["json", "pickle"][(h // 10) % 2], "callback": h % 3 != 2}
             steps = []
             for s in gen.history(rng, cfg["version"], rng.randint(10, 50), {"garbage": 0.1, "ctl": 0.05, "sleep": True, "ota": False, "unicode": 0.3}):
                 if s[0] in ("in", "set"):
